@@ -99,7 +99,7 @@ var props = map[string]*propCfg{
 		Title:    "output ordering is a deterministic function of the aggregated data (order-independence clauses)",
 		Quick:    tierCfg{Runs: 1000, Chunk: 32, RaceRuns: 48, DetRuns: 24, ShrinkSec: 90},
 		Thorough: tierCfg{Runs: 50000, Chunk: 400, RaceRuns: 3000, DetRuns: 128, ShrinkSec: 300},
-		Rule: "one evaluation = one scenario: a multiset of 2-8 (key, count) drawn from pools that stress the comparators (numbers in several spellings, weekday/month names and abbreviations, dates in several layouts, text, mixtures), one of histo/table/bars and one sort mode of {text, numeric, contextual, date, value} x {none, :asc, :desc, :reverse}, run in-process under 4-6 variants that change only the map-iteration salt, the arrival order of lines, schedule and worker count, division among files and read latencies (number of intermediate renders on the fake clock), plus one run with the reversed and one with the equivalent spelling; the row/column label sequences of the final snapshots must agree (or mirror); one scenario in three draws clean key families (distinct integers/decimals, weekday/month names, dates of one layout, distinct totals) with independent modes for rows and columns and compares the displayed order with the documented one; " +
+		Rule: "one evaluation = one scenario: a multiset of 2-8 (key, count) drawn from pools that stress the comparators (numbers in several spellings, weekday/month names and abbreviations, dates in several layouts, text, mixtures), one of histo/table/bars and one sort mode of {text, numeric, contextual, date, value} x {none, :asc, :desc, :reverse}, run in-process under 4-6 variants that change only the map-iteration salt, the arrival order of lines, schedule and worker count, division among files and read latencies (number of intermediate renders on the fake clock), plus one run with the reversed and one with the equivalent spelling; the row/column label sequences of the final snapshots must agree (or mirror); one scenario in three draws clean key families (distinct integers/decimals, weekday/month names, dates of one layout, distinct totals) with independent modes for rows and columns and compares the displayed order with the documented one; `rare reduce` kinds (2-8 groups, or 1030-1300 groups) order groups by key or by a --sort expression with ties, --sort-reverse must mirror; leg B runs key sets above a thousand free-running under the race detector; " +
 			"distinct_nontrivial = distinct combined schedule hashes among scenarios with >= 2 goroutines runnable at >= 1 decision",
 		Real:  []string{"main.cliMain + urfave/cli", "cmd/histo|tabulate|bargraph", "cmd/helpers/sorting.go", "pkg/aggregation/sorting", "pkg/aggregation", "pkg/multiterm renderers", "pkg/extractor + batchers"},
 		Stubs: []string{"goroutine scheduling (tape)", "clock (synctest fake clock)", "Go map iteration order in rare's packages (tape-salted permutation)", "stdin (scripted reader)", "read chunking/latency (fs seam)"},
@@ -109,7 +109,7 @@ var props = map[string]*propCfg{
 		Title:    "final aggregates equal the reference aggregation, independent of parallelism",
 		Quick:    tierCfg{Runs: 1200, Chunk: 40, RaceRuns: 96, DetRuns: 24, ShrinkSec: 90},
 		Thorough: tierCfg{Runs: 60000, Chunk: 400, RaceRuns: 6000, DetRuns: 128, ShrinkSec: 300},
-		Rule: "one evaluation = one scenario (a corpus of 0-60 lines `w1 w2 n` with tricky words, noise and optionally non-numeric increments; one of histo/table/heatmap/spark/bars/reduce/analyze or a {.}-keyed histogram, with drawn key templates, sort flags and an optional ignore expression) executed in-process under 3-5 variants that must not matter: --workers/--batch/--batch-buffer/--readers, permuted file arguments, the same lines divided among 1-4 files (contiguous or scattered), plain/gzip with -z, stdin, schedule, read chunking/latency (number of intermediate renders on the fake clock), map-iteration salt; exit status, CSV bytes and snapshot stdout must agree across variants, and the CSV parsed by a strict RFC 4180 parser must equal an independent fold (stdlib regexp + the world's own template evaluator); " +
+		Rule: "one evaluation = one scenario (a corpus of 0-60 lines `w1 w2 n` with tricky words, noise and optionally non-numeric increments; one of histo/table/heatmap/spark/bars/reduce/analyze or a {.}-keyed histogram, with drawn key templates, sort flags and an optional ignore expression) executed in-process under 3-5 variants that must not matter: --workers/--batch/--batch-buffer/--readers, permuted file arguments, the same lines divided among 1-4 files (contiguous or scattered), plain/gzip with -z, stdin, schedule, read chunking/latency (number of intermediate renders on the fake clock), map-iteration salt; exit status, CSV bytes and snapshot stdout must agree across variants, and the CSV parsed by a strict RFC 4180 parser must equal an independent fold (stdlib regexp + the world's own template evaluator); histograms also run with the default matcher (no -m); gzip inputs may have two members; leg B re-runs scenarios free-running under the race detector with the same oracles; " +
 			"distinct_nontrivial = distinct combined schedule hashes among scenarios with >= 1 matching line and >= 2 goroutines runnable at >= 1 decision",
 		Real:  []string{"main.cliMain + urfave/cli", "cmd/histo|tabulate|heatmap|spark|bargraph|reduce|analyze", "cmd/helpers", "pkg/aggregation", "pkg/csv", "pkg/multiterm renderers", "pkg/extractor + batchers", "pkg/expressions", "compress/gzip"},
 		Stubs: []string{"goroutine scheduling (tape)", "clock (synctest fake clock)", "Go map iteration order in rare's packages (tape-salted permutation)", "stdin (scripted reader)", "read chunking/latency (fs seam)", "os.Exit (trapped)", "os.Stdout/os.Stderr (scratch files)"},
@@ -119,7 +119,7 @@ var props = map[string]*propCfg{
 		Title:    "named inputs are each read once, decoded faithfully, and failures are reported",
 		Quick:    tierCfg{Runs: 6000, Chunk: 200, DetRuns: 48, ShrinkSec: 60},
 		Thorough: tierCfg{Runs: 160000, Chunk: 1000, DetRuns: 256, ShrinkSec: 240},
-		Rule: "one evaluation = one in-process `rare filter -e {src}:{line}:{0} [-z] [-R] --readers r --batch b --workers w --batch-buffer k args...` under the simulated scheduler over a generated scratch tree (2-10 files in nested directories: plain, empty, gzip, corrupt-header gzip, truncated gzip, bit-flipped gzip, names with glob metacharacters) with 1-5 arguments over {existing path, missing path, directory, glob with 0/1/many matches, pattern with metacharacters in a directory component, bad pattern, repeated mention} or stdin (none / -); odd-indexed runs inject one open failure or one read error at a drawn byte of one input; " +
+		Rule: "one evaluation = one in-process `rare filter -e {src}:{line}:{0} [-z] [-R] --readers r --batch b --workers w --batch-buffer k args...` under the simulated scheduler over a generated scratch tree (2-10 files in nested directories: plain, empty, gzip, corrupt-header gzip, truncated gzip, bit-flipped gzip, names with glob metacharacters) with 1-5 arguments over {existing path, missing path, directory, glob with 0/1/many matches, pattern with metacharacters in a directory component, bad pattern, repeated mention} or stdin (none / -); odd-indexed runs inject one open failure or one read error at a drawn byte of one input; gzip files have 1-3 members; stdin (1 run in 6) is up to 40 lines from a producer that may pause up to 700ms per read, with slow stages in half of those runs; " +
 			"distinct_nontrivial = distinct schedule hashes among runs with >= 1 input and >= 2 goroutines runnable at >= 1 decision",
 		Real:  []string{"main.cliMain + urfave/cli", "cmd/filter.go", "cmd/helpers", "pkg/extractor/dirwalk", "pkg/extractor/batchers", "pkg/extractor", "compress/gzip", "filepath.Glob/Walk", "regular files and directories of the kernel"},
 		Stubs: []string{"goroutine scheduling (tape)", "clock (synctest fake clock)", "stdin (scripted reader)", "open failure / read error / chunking / latency (fs seam)", "os.Exit via logger.OsExit (trapped)", "os.Stdout/os.Stderr (scratch files)"},
@@ -129,7 +129,7 @@ var props = map[string]*propCfg{
 		Title:    "follow mode delivers every appended byte exactly once, in order",
 		Quick:    tierCfg{Runs: 6000, Chunk: 200, DetRuns: 48, ShrinkSec: 60},
 		Thorough: tierCfg{Runs: 500000, Chunk: 2500, DetRuns: 256, ShrinkSec: 240},
-		Rule: "one evaluation = one simulated run of followreader.New(path, reopen, poll) (real notify.go/poller.go on real scratch files through the fs seam, fsnotify stubbed, poll delay on the fake clock) read by a simulated reader with drawn buffer sizes and latencies, against a simulated writer executing a drawn history of 1-12 operations over {append 1-40 unique bytes (sometimes split in two writes), pause 1ms-3s, remove-after-drain, re-create(+append)} x {notify, poll} x {reopen} x {tail}; odd-indexed runs add short reads and read latencies on the followed file; whether a re-created file takes over the inode number of the removed one is drawn from the tape (virtual identity behind os.SameFile); one run in four drives batchers.TailFilesToChan over 1-3 followed files with a draining consumer (line numbering, prefix of complete lines, time flush, channel close); " +
+		Rule: "one evaluation = one simulated run of followreader.New(path, reopen, poll) (real notify.go/poller.go on real scratch files through the fs seam, fsnotify stubbed, poll delay on the fake clock) read by a simulated reader with drawn buffer sizes and latencies, against a simulated writer executing a drawn history of 1-12 operations over {append 1-40 unique bytes (sometimes split in two writes), pause 1ms-3s, remove-after-drain, re-create(+append)} x {notify, poll} x {reopen} x {tail}; odd-indexed runs add short reads and read latencies on the followed file; whether a re-created file takes over the inode number of the removed one is drawn from the tape (virtual identity behind os.SameFile); the writer may arm an append that lands right after the reader's next stat/read/open call; pauses include multiples of the 250ms poll period; one run in four drives batchers.TailFilesToChan over 1-3 followed files with a draining consumer (line numbering, prefix of complete lines, time flush, channel close); " +
 			"distinct_nontrivial = distinct schedule hashes among runs with >= 1 appended byte and >= 2 goroutines runnable at >= 1 decision",
 		Real:  []string{"pkg/followreader (notify.go, poller.go)", "pkg/extractor/batchers (TailFilesToChan, time flush)", "pkg/readahead", "regular files of the kernel (append, unlink-while-open, re-create)"},
 		Stubs: []string{"github.com/fsnotify/fsnotify + inotify (stub: FIFO kernel queue, adjacent-identical coalescing, ignore-if-file-gone, unbuffered Events)", "goroutine scheduling (tape)", "clock (synctest fake clock)", "short reads / read latency (fs seam)", "file identity (os.SameFile): virtual inode numbers, reuse decided by the tape"},
@@ -139,7 +139,7 @@ var props = map[string]*propCfg{
 		Title:    "race-free, atomic render, terminates, final render complete",
 		Quick:    tierCfg{Runs: 4000, Chunk: 125, RaceRuns: 480, DetRuns: 48, ShrinkSec: 60},
 		Thorough: tierCfg{Runs: 300000, Chunk: 1500, RaceRuns: 24000, DetRuns: 256, ShrinkSec: 240},
-		Rule: "one evaluation = one simulated run of real batchers + extractor + helpers.RunAggregationLoop around a real MatchCounter with the render callback of cmd/histo.go (real HistoWriter, FWriteExtractorSummary, Batcher.StatusString), under a tape-drawn schedule, select ties, reader/sample/render/yield latencies in fake time (the 100ms ticker lands before, between and after batches); leg B re-runs the same worlds free-running under the race detector; " +
+		Rule: "one evaluation = one simulated run of real batchers + extractor + helpers.RunAggregationLoop around a real MatchCounter with the render callback of cmd/histo.go (real HistoWriter, FWriteExtractorSummary, Batcher.StatusString), under a tape-drawn schedule, select ties, reader/sample/render/yield latencies in fake time (the 100ms ticker lands before, between and after batches); leg B re-runs the same worlds free-running under the race detector; one run in four is `rare histo|bars` in-process over lines arriving across several render ticks, final screen numbers and footer against the reference; " +
 			"distinct_nontrivial = distinct schedule hashes among leg-A runs that read >= 1 line and had >= 2 goroutines runnable at >= 1 decision",
 		Real:  []string{"cmd/helpers.RunAggregationLoop", "pkg/extractor/batchers", "pkg/extractor", "pkg/aggregation.MatchCounter", "pkg/multiterm/termrenderers.HistoWriter", "pkg/multiterm.VirtualTerm", "pkg/logger", "regular files of the kernel"},
 		Stubs: []string{"goroutine scheduling (tape; leg B: the real Go scheduler under -race)", "clock (synctest fake clock)", "stdin (scripted reader)", "signal.Notify (simrt.SignalNotify)", "read chunking/latency/error (fs seam)"},
